@@ -201,7 +201,7 @@ pub fn migrate_case(seed: u64, lane: Lane, trace: bool) -> CaseOut {
     match end {
         RunEnd::Done => out.cnt.inc("c15.migrations_survived"),
         RunEnd::StepCap | RunEnd::TimeCap => out.inconclusive = Some("step / time cap reached".into()),
-        RunEnd::Quiescent => viol.push(format!("the transfer did not complete after {} address change(s): the world is stuck (lost: {lost})", next_move)),
+        RunEnd::Quiescent => viol.push(format!("the transfer did not complete after {} address change(s): the world is stuck (lost: {lost});{}", next_move, super::c02::diag(&w))),
     }
     if lost {
         let l: Vec<String> = w.eps.iter().flat_map(|e| e.conns.values().flat_map(|c| c.app.lost.clone())).collect();
@@ -319,6 +319,20 @@ fn hijack_case(seed: u64, lane: Lane, trace: bool, victim: u8) -> CaseOut {
     };
     let mut viol = vec![];
     let lost = any_lost(&w);
+    if matches!(end, RunEnd::Done) && !lost {
+        // a replay that arrives as the workload ends has just moved the server: give its path
+        // validation the time to fail (replays still on the wire included) before looking at
+        // where the connection points
+        let until = w.now + 60_000_000_000;
+        let mut extra = 0;
+        while extra < 20_000
+            && w.now < until
+            && (!w.net.q.is_empty() || w.eps.iter().any(|e| e.conns.values().any(|c| c.side == Side::Server && c.c.verif_probe().timers.iter().any(|t| t.0 == "PathValidation"))))
+            && w.step()
+        {
+            extra += 1;
+        }
+    }
     match end {
         RunEnd::Done => out.cnt.inc("c15.attacks_survived"),
         RunEnd::StepCap | RunEnd::TimeCap => out.inconclusive = Some("step / time cap reached".into()),
